@@ -184,8 +184,10 @@ PROPS["C07"] = dict(
     runs=[
         dict(name="prod-hsw", src="toa_harness.cpp", cfg="prod-hsw", env={}, args=["--prop", "C07", "--scale", "4"]),
         dict(name="asan-hsw", src="toa_harness.cpp", cfg="asan-hsw", env=ASAN_ENV, args=["--prop", "C07"]),
+        dict(name="prod-dyn", src="toa_harness.cpp", cfg="prod-dyn", env={}, args=["--prop", "C07"]),
+        dict(name="prod-dyn-nohsw", src="toa_harness.cpp", cfg="prod-dyn+SONIC_VERIF_DISPATCH_NO_HASWELL", env={}, args=["--prop", "C07"]),
     ],
-    require=["doubles-printed", "class:subnormal", "format:scientific", "format:fixed", "first-principles-checks",
+    require=["placement:number-written-at-every-offset-across-a-page-boundary", "number-reached-at-every-remaining-capacity", "doubles-printed", "class:subnormal", "format:scientific", "format:fixed", "first-principles-checks",
              "library-parse-back-checks", "audit:pow10ceil-entries", "every_exponent", "powers_of_ten_neighbours"],
     assumptions=["glibc strtod/printf are correctly rounded / exact", "libstdc++ std::to_chars(double) yields the shortest closest decimal "
                  "(cross-checked by the first-principles subset)"],
@@ -202,9 +204,11 @@ PROPS["C08"] = dict(
     runs=[
         dict(name="prod-hsw", src="toa_harness.cpp", cfg="prod-hsw", env={}, args=["--prop", "C08", "--scale", "4"]),
         dict(name="asan-hsw", src="toa_harness.cpp", cfg="asan-hsw", env=ASAN_ENV, args=["--prop", "C08"]),
-        dict(name="prod-wsm", src="toa_harness.cpp", cfg="prod-wsm", env={}, args=["--prop", "C08"], tiers=("thorough",)),
+        dict(name="prod-wsm", src="toa_harness.cpp", cfg="prod-wsm", env={}, args=["--prop", "C08"]),
+        dict(name="prod-dyn", src="toa_harness.cpp", cfg="prod-dyn", env={}, args=["--prop", "C08"]),
+        dict(name="prod-dyn-nohsw", src="toa_harness.cpp", cfg="prod-dyn+SONIC_VERIF_DISPATCH_NO_HASWELL", env={}, args=["--prop", "C08"]),
     ],
-    require=["u64-printed", "i64-printed", "integer-node-roundtrips", "below_1e8_stride", "digit_count_boundaries",
+    require=["placement:number-written-at-every-offset-across-a-page-boundary", "number-reached-at-every-remaining-capacity", "u64-printed", "i64-printed", "integer-node-roundtrips", "below_1e8_stride", "digit_count_boundaries",
              "arrays_of_long_integers_serialised"],
     assumptions=["glibc snprintf %llu/%lld"],
 )
@@ -226,6 +230,8 @@ PROPS["C09"] = dict(
         dict(name="asan-hsw", src="kernel_harness.cpp", cfg="asan-hsw", env=ASAN_ENV, args=["--prop", "C09"]),
         dict(name="asan-wsm", src="kernel_harness.cpp", cfg="asan-wsm", env=ASAN_ENV, args=["--prop", "C09"]),
         dict(name="prod-dyn-nohsw", src="kernel_harness.cpp", cfg="prod-dyn+SONIC_VERIF_DISPATCH_NO_HASWELL", env={}, args=["--prop", "C09"]),
+        dict(name="asan-dyn", src="kernel_harness.cpp", cfg="asan-dyn", env=ASAN_ENV, args=["--prop", "C09"]),
+        dict(name="asan-dyn-nohsw", src="kernel_harness.cpp", cfg="asan-dyn+SONIC_VERIF_DISPATCH_NO_HASWELL", env=ASAN_ENV, args=["--prop", "C09"]),
     ],
     require=["quote-calls", "quote-via-node-serialize", "placement:ends-on-last-mapped-byte", "placement:ends-1..130-bytes-before-unmapped",
              "placement:exact-heap-block", "content:escape-in-sub-vector-tail-followed-by-bytes", "audit:quote-table-entries",
@@ -514,6 +520,9 @@ PROPS["C17"] = dict(
         dict(name="tsan-hsw", src="thread_harness.cpp", cfg="tsan-hsw", env=TSAN_ENV, shards=4, shards_quick=4),
         dict(name="tsan-hsw-locked", src="thread_harness.cpp", cfg="tsan-hsw+SONIC_LOCKED_ALLOCATOR", env=TSAN_ENV, shards=4, shards_quick=4),
         dict(name="prod-hsw-locked", src="thread_harness.cpp", cfg="prod-hsw+SONIC_LOCKED_ALLOCATOR", env={}, shards=4, shards_quick=4, args=["--scale", "4"]),
+        # the runtime-dispatch build cannot run under ThreadSanitizer (its ifunc resolvers crash before main); it is run
+        # without a sanitizer: post-join result oracles and crashes are what is observed there
+        dict(name="prod-dyn", src="thread_harness.cpp", cfg="prod-dyn", env={}, shards=4, shards_quick=4, args=["--scale", "4"]),
     ],
     require=["thread-team-runs", "W0:cold-start-teams(first library use in a fresh process is concurrent)", "W1:own-documents(parse,mutate,serialize,on-demand,UpdateLazy,ParseSchema)", "W2:shared-read-only-document",
              "W2:operator[]-on-missing-key", "W2:shared-document-with-lookup-map", "W3:shared-pool-by-reference(locked)",
